@@ -127,6 +127,42 @@ def extra():
     return out
 
 
+def partial_options():
+    """functions wrapped in functools.partial: an option bound BY KEYWORD in the partial is keyword-only in the partial's own signature; overriding it in the call must reach the function
+    (and must not be taken for an axis size)"""
+    import functools
+    import einx
+    out = []
+    x = np.arange(6.0).reshape(2, 3)
+    for adapter in ("reduce", "elementwise"):
+        got = {}
+        if adapter == "reduce":
+            def user(t, axis, scale=1, *, opt="d"):
+                got.update(scale=scale, opt=opt)
+                return np.asarray(np.sum(t, axis=axis) * scale)
+            ad = einx.numpy.adapt_numpylike_reduce(functools.partial(user, scale=2))
+            call = lambda **kw: ad("a [b]", x, **kw)  # noqa
+            ref = lambda sc: x.sum(1) * sc  # noqa
+        else:
+            def user(t, u, scale=1, *, opt="d"):  # noqa
+                got.update(scale=scale, opt=opt)
+                return np.asarray((t + u) * scale)
+            ad = einx.numpy.adapt_numpylike_elementwise(functools.partial(user, scale=2))
+            call = lambda **kw: ad("a b, a b", x, x, **kw)  # noqa
+            ref = lambda sc: (x + x) * sc  # noqa
+        for kw, want_scale in (({}, 2), ({"scale": 3}, 3), ({"scale": 5, "opt": "o"}, 5), ({"scale": 3}, 3), ({}, 2)):
+            got.clear()
+            o = harness.outcome(lambda: call(**kw))
+            d = {"op": f"adapted {adapter} (functools.partial)", "description": "a [b]" if adapter == "reduce" else "a b, a b", "shapes": [[2, 3]], "kwargs": {k: repr(v) for k, v in kw.items()}, "adapter": adapter}
+            if o[0] != "ok":
+                out.append(("exception", d, f"{o[1:]}"[:200]))
+            elif got.get("scale") != want_scale or not np.allclose(o[1], ref(want_scale)) or got.get("opt") != kw.get("opt", "d"):
+                out.append(("kwarg-not-verbatim", d, f"the function behind functools.partial(..., scale=2) called with {kw} received {got} (expected scale={want_scale})"))
+            else:
+                out.append(("ok", d, None))
+    return out
+
+
 def kw_verbatim():
     """keyword-only options reach the user function verbatim (same type, equal value), cold and on a cache hit, for both numpy adapters"""
     import einx
@@ -230,7 +266,7 @@ def run(tier, seed):
     n, fails = iskwarg_complete()
     chk.add_rule("C15.P.iskwarg", not fails, [f"{n} (function, name) pairs incl. functools.wraps-decorated functions sharing one code object"], fails[:3])
     m = 8 if tier == "quick" else 400
-    res = [x for r in harness.pmap(_work, [(seed, i) for i in range(m)]) for x in r] + extra() + kw_verbatim()
+    res = [x for r in harness.pmap(_work, [(seed, i) for i in range(m)]) for x in r] + extra() + kw_verbatim() + partial_options()
     fails = [r for r in res if r[0] != "ok"]
     seen = set()
     for st, d, detail in fails:
